@@ -18,7 +18,7 @@ theorem closureIfs : Gen.Dag.closureIfs = ["len(parents) == 0", "err != nil", "!
 /-- `Dag.parentClosure`: diffs from i = 1, parents themselves from i = 0 -/
 theorem closureFors : Gen.Dag.closureFors = ["i := 1; i < len(closures); i++", "i := 0; i < len(parents); i++"] := rfl
 /-- `Dag.parentClosure`: editor of closures[0]; diff(closures[0], closures[i]); Add key(parent height, parent addr) -/
-theorem closureCalls : Gen.Dag.closureCalls = ["prolly.NewEmptyCommitClosure(ns)", "closures[0].Editor()", "prolly.DiffCommitClosures(ctx, closures[0], closures[i], func(ctx context.Context, diff tree.Diff) error { if diff.Type == tree.AddedDiff { return editor.Add(ctx, prolly.CommitClosureKey(diff.Key)) } return nil })", "editor.Add(ctx, prolly.CommitClosureKey(diff.Key))", "editor.Add(ctx, prolly.NewCommitClosureKey(ns.Pool(), parents[i].Height(), parentAddrs[i]))", "prolly.NewCommitClosureKey(ns.Pool(), parents[i].Height(), parentAddrs[i])", "editor.Flush(ctx)"] := rfl
+theorem closureCalls : Gen.Dag.closureCalls = ["prolly.NewEmptyCommitClosure(ns)", "closures[0].Editor()", "prolly.DiffCommitClosures(.. func ..)", "editor.Add(ctx, prolly.CommitClosureKey(diff.Key))", "editor.Add(ctx, prolly.NewCommitClosureKey(ns.Pool(), parents[i].Height(), parentAddrs[i]))", "prolly.NewCommitClosureKey(ns.Pool(), parents[i].Height(), parentAddrs[i])", "editor.Flush(ctx)"] := rfl
 /-- `Dag.klt`: heights first, then address bytes -/
 theorem keyCompareIfs : Gen.Dag.keyCompareIfs = ["lh == rh", "lh < rh"] := rfl
 theorem keyCompareReturns : Gen.Dag.keyCompareReturns = ["bytes.Compare(left[prefixWidth:], right[prefixWidth:]), nil", "-1, nil", "1, nil"] := rfl
